@@ -50,7 +50,7 @@ Proof.
     { intros _. unfold h2. destruct h1. cbn in *. exact E1. }
     destruct (save st2 (stamp_clock h2)) as [[st3 h3] e] eqn:SV. cbn [fst snd] in *.
     pose proof (save_keeps st2 (stamp_clock h2)) as K3. rewrite SV in K3. cbn [fst snd] in K3.
-    split; [exact E|]. split; [eapply keeps_trans; [exact K2|eapply keeps_trans; [apply stamp_clock_keeps|exact K3]]|].
+    split; [rewrite E; reflexivity|]. split; [eapply keeps_trans; [exact K2|eapply keeps_trans; [apply stamp_clock_keeps|exact K3]]|].
     right. rewrite S. unfold st2. cbn [set_cell set_heap st_store]. rewrite (proj1 R1).
     rewrite (proj1 (stamp_clock_keeps h2)), (proj1 K2).
     rewrite (proj2 (stamp_clock_keeps h2)), (proj2 K2), stamp_clock_mtime, stamp_clock_cell.
